@@ -3,11 +3,9 @@
 use std::fs::File;
 use std::io::BufRead;
 use std::io::BufReader;
-use std::ops::Add;
 use std::ops::Index;
 use std::path::Path;
 use std::sync::LazyLock;
-use crate::util::error_exit;
 use regex::Captures;
 use regex::Error;
 use regex::Regex;
@@ -15,11 +13,16 @@ use regex::Regex;
 #[derive(Clone, Debug)]
 pub struct HgignoreFilter {
     pub regex: Regex,
+    /// The repository root: the pattern is matched against the path relative to it
+    pub root: String,
 }
 
 impl HgignoreFilter {
-    fn new(regex: Regex) -> HgignoreFilter {
-        HgignoreFilter { regex }
+    fn new(regex: Regex, root: &Path) -> HgignoreFilter {
+        HgignoreFilter {
+            regex,
+            root: root.to_string_lossy().to_string(),
+        }
     }
 }
 
@@ -64,9 +67,12 @@ pub fn matches_hgignore_filter(hgignore_filters: &Vec<HgignoreFilter>, file_name
     let mut matched = false;
 
     for hgignore_filter in hgignore_filters {
-        let is_match = hgignore_filter.regex.is_match(file_name);
+        let relative_path = match file_name.strip_prefix(hgignore_filter.root.as_str()) {
+            Some(path) => path.trim_start_matches(|c| c == '/' || c == '\\').replace('\\', "/"),
+            None => continue,
+        };
 
-        if is_match {
+        if hgignore_filter.regex.is_match(&relative_path) {
             matched = true;
         }
     }
@@ -154,115 +160,43 @@ fn convert_hgignore_pattern(
     syntax: &Syntax,
 ) -> Result<HgignoreFilter, String> {
     match syntax {
-        Syntax::Glob => match convert_hgignore_glob(pattern, file_path) {
-            Ok(regex) => Ok(HgignoreFilter::new(regex)),
+        Syntax::Glob => match convert_hgignore_glob(pattern) {
+            Ok(regex) => Ok(HgignoreFilter::new(regex, file_path)),
             _ => Err("Error creating regex while parsing .hgignore glob: ".to_string() + pattern),
         },
-        Syntax::Regexp => match convert_hgignore_regexp(pattern, file_path) {
-            Ok(regex) => Ok(HgignoreFilter::new(regex)),
+        Syntax::Regexp => match convert_hgignore_regexp(pattern) {
+            Ok(regex) => Ok(HgignoreFilter::new(regex, file_path)),
             _ => Err("Error creating regex while parsing .hgignore regexp: ".to_string() + pattern),
         },
     }
 }
 
 static HG_CONVERT_REPLACE_REGEX: LazyLock<Regex> = LazyLock::new(|| {
-    Regex::new("(\\*\\*|\\?|\\.|\\*)").unwrap()
+    Regex::new("(\\*\\*/|\\*\\*|\\?|\\*|[^*?]+)").unwrap()
 });
 
-fn convert_hgignore_glob(glob: &str, file_path: &Path) -> Result<Regex, Error> {
-    #[cfg(not(windows))]
-    {
-        let mut pattern = HG_CONVERT_REPLACE_REGEX
-            .replace_all(&glob, |c: &Captures| {
-                match c.index(0) {
-                    "**" => ".*",
-                    "." => "\\.",
-                    "*" => "[^/]*",
-                    "?" => "[^/]+",
-                    "[" => "\\[",
-                    "]" => "\\]",
-                    "(" => "\\(",
-                    ")" => "\\)",
-                    "^" => "\\^",
-                    "$" => "\\$",
-                    _ => error_exit(".hgignore", "Error parsing pattern"),
-                }
-                .to_string()
-            })
-            .to_string();
+/// Globs are not rooted: they match whole path components anywhere below the repository root
+/// (`*` and `?` within one component, `**` across components) and everything below a match.
+fn convert_hgignore_glob(glob: &str) -> Result<Regex, Error> {
+    let glob = glob.trim_end_matches(|c| c == '/' || c == '\\');
 
-        pattern = file_path
-            .to_string_lossy()
-            .to_string()
-            .replace("\\", "\\\\")
-            .add("/([^/]+/)*")
-            .add(&pattern);
+    let pattern = HG_CONVERT_REPLACE_REGEX
+        .replace_all(glob, |c: &Captures| {
+            match c.index(0) {
+                "**/" => String::from("(.*/)?"),
+                "**" => String::from(".*"),
+                "*" => String::from("[^/]*"),
+                "?" => String::from("[^/]"),
+                literal => regex::escape(literal),
+            }
+        })
+        .to_string();
 
-        Regex::new(&pattern)
-    }
-
-    #[cfg(windows)]
-    {
-        let mut pattern = HG_CONVERT_REPLACE_REGEX
-            .replace_all(&glob, |c: &Captures| {
-                match c.index(0) {
-                    "**" => ".*",
-                    "." => "\\.",
-                    "*" => "[^\\\\]*",
-                    "?" => "[^\\\\]+",
-                    "[" => "\\[",
-                    "]" => "\\]",
-                    "(" => "\\(",
-                    ")" => "\\)",
-                    "^" => "\\^",
-                    "$" => "\\$",
-                    _ => error_exit(".hgignore", "Error parsing pattern"),
-                }
-                .to_string()
-            })
-            .to_string();
-
-        pattern = file_path
-            .to_string_lossy()
-            .to_string()
-            .replace("\\", "\\\\")
-            .add("\\\\([^\\\\]+\\\\)*")
-            .add(&pattern);
-
-        Regex::new(&pattern)
-    }
+    Regex::new(&format!("(^|/){}(/|$)", pattern))
 }
 
-fn convert_hgignore_regexp(regexp: &str, file_path: &Path) -> Result<Regex, Error> {
-    #[cfg(not(windows))]
-    {
-        let mut pattern = file_path.to_string_lossy().to_string();
-        if !regexp.starts_with("^") {
-            pattern = pattern.add("/([^/]+/)*");
-        }
-
-        if !regexp.starts_with("^") {
-            pattern = pattern.add(".*");
-        }
-
-        pattern = pattern.add(&regexp.trim_start_matches("^"));
-
-        Regex::new(&pattern)
-    }
-
-    #[cfg(windows)]
-    {
-        let mut pattern = file_path.to_string_lossy().to_string();
-        if !regexp.starts_with("^") {
-            pattern = pattern.add("\\\\([^\\\\]+\\\\)*");
-        }
-
-        if !regexp.starts_with("^") {
-            pattern = pattern.add(".*");
-        }
-
-        pattern = pattern.add(&regexp.trim_start_matches("^"));
-
-        Regex::new(&pattern)
-    }
+/// Regular expressions are searched in the path relative to the repository root; they are anchored
+/// there only by a leading `^` of their own.
+fn convert_hgignore_regexp(regexp: &str) -> Result<Regex, Error> {
+    Regex::new(regexp)
 }
